@@ -94,5 +94,60 @@ PROPS["C06"] = {
     "assumptions": ["a read returns at most MIN_READ bytes in the correspondence; the theorems allow any size"],
 }
 
+
+CORE_TRUSTED = [
+    "std HashMap iteration order is unspecified: the model iterates slots by ascending id; the one place "
+    "where the order is observable (a connection-close notification failing midway with >= 2 open slots) "
+    "is compared only up to 'both sides fail'",
+    "crossbeam-channel / mio-extras channels behave as FIFO queues with the stated capacity and "
+    "disconnect semantics (model: Model/Core.v queue / try_send)",
+    "amq-protocol (de)serialisation of method payloads: both ends of the harness use it; the frames "
+    "the thread itself emits are compared byte for byte with the model's own rendering",
+]
+PROPS["C03"] = {
+    "check_mods": ["C03"],
+    "model_out": "model_out",
+    "drivers": [{"name": "c03", "n_quick": 480, "n_thorough": 16000}],
+    "rule": "valid server histories on the real Inner/ConnectionState (CoreProbe): 1-4 channels, 0-3 "
+            "consumers each, return listeners, 0-4 messages per channel (deliveries, returns, get answers; "
+            "bodies 0, 1, 2-300, 4088/4096/5000/20000 bytes), every message rendered with a random partition "
+            "(1-byte parts, empty parts, whole body), channels interleaved at frame granularity with "
+            "heartbeats and harmless methods in between, fed directly or as read episodes through the real "
+            "FrameBuffer with random cuts and write activity in the same event. non-trivial = at least 4 "
+            "operations and at least one item received; distinct = distinct case term.",
+    "explanation": "C03_roundtrip / C03_not_early / C03_sequence (collector, every partition, every "
+                   "length), C03_deliver (thread-level dispatch to exactly the consumer's queue), "
+                   "C03_frame_lemma (other channels untouched). Correspondence: the real thread state is "
+                   "driven op by op; every observation (outcome, out-buffer digest, open ids, every item "
+                   "received on every queue) must equal the model's; the oracle - the compliant reading of "
+                   "the frames fed, written independently of the model - demands per queue EXACTLY the "
+                   "messages addressed to it, in order.",
+    "trusted_base": CORE_TRUSTED,
+    "assumptions": ["'delays nobody': consumer queues are unbounded and sends never block in the model; "
+                    "wall-clock latency is not modelled"],
+}
+PROPS["C07"] = {
+    "check_mods": ["C07"],
+    "model_out": "model_out",
+    "drivers": [{"name": "c07", "n_quick": 600, "n_thorough": 20000}],
+    "rule": "arbitrary frame sequences over the whole dispatch alphabet (every arm of process: 19 method "
+            "groups incl. 13 generic replies, 6 unimplemented, 19 client-only methods, 5 other connection "
+            "methods; headers with sizes 0,1,2,5,6,2^31,2^63-1,2^63,2^64-1,10^14; bodies; heartbeats on any "
+            "channel; protocol header) on channel 0 / open / not-open channels, in random collector states, "
+            "with consumers, truncated and overrun content, fed directly or as read episodes; plus a third "
+            "of general steady-state mixes (client sends, allocations, listeners, drops). non-trivial = at "
+            "least 4 operations and one item received; distinct = distinct case term.",
+    "explanation": "C07_no_panic (every frame sequence, invariant WFs established by C07_init), C07_sound "
+                   "(collector output = compliant reading, every sequence), C07_overrun, "
+                   "C07_out_of_sequence, C07_exception_* (hard-error Close, sealed, frames ignored). "
+                   "Correspondence as for C03; oracle: no panic, per-queue messages are a subsequence of the "
+                   "compliant reading, consumer queues keep their shape, frame errors are the documented "
+                   "ones, in ClientException the out-buffer is sealed and ends with Connection.Close "
+                   "carrying the code that matches the offending frame.",
+    "trusted_base": CORE_TRUSTED,
+    "assumptions": ["memory: the capped pre-allocation of the repaired collector (F5) is not modelled as an "
+                    "allocation size; the real code runs on every size in the list above"],
+}
+
 # properties not claimed, with the reason (kept current)
 NOT_APPLICABLE = {}
